@@ -1,9 +1,22 @@
 package bal
 
 import (
+	"os"
+	"runtime/debug"
 	"testing"
 
 	"verif/harness/internal/ev"
 )
 
-func TestMain(m *testing.M) { ev.Main(m.Run) }
+func TestMain(m *testing.M) {
+	// the checks allocate many small short-lived objects (requests, plans); a
+	// lazier collector roughly halves the wall time and changes no result
+	debug.SetGCPercent(800)
+	ev.Main(func() int {
+		code := m.Run()
+		if confDir != "" {
+			os.RemoveAll(confDir)
+		}
+		return code
+	})
+}
